@@ -30,4 +30,5 @@ CONF = dict(
                  'request), so a C2S key differing only in its second half verifies the same request; wrong-key cases for requests therefore differ in the MAC half.'),
     timeout_quick=900,
     timeout_thorough=3000,
+    min_cases={'ck.hist': 45, 'ck.open': 747, 'ck.seal': 76, 'ck.tlv': 493, 'ke.export': 1, 'nts.encode': 138, 'nts.newreq': 38, 'nts.newresp': 39, 'nts.req': 3040, 'nts.resp': 1917, 'srv.ip': 541},
 )
